@@ -62,6 +62,9 @@ func (f *Frame) builtin(name string, c *ssa.CallCommon, args []*Value, pos token
 		f.mapDelete(args[0], args[1], c.Args[0].Type())
 		return &Value{Tuple: []*Value{}}
 	case "close":
+		if f.top && !f.dry && f.fc != nil && len(f.fc.Asserts) > 0 {
+			f.siteAsserts("close", pos, args...)
+		}
 		f.closeChan(args[0], pos)
 		return &Value{Tuple: []*Value{}}
 	case "print", "println":
